@@ -95,7 +95,7 @@ pub fn analyse_formulae(
     print_if_allowed(
         format!(
             "Time to parse all formulae + build STG: {}ms.",
-            start.elapsed().unwrap().as_millis()
+            start.elapsed().unwrap_or_default().as_millis()
         ),
         print_opt,
     );
@@ -196,7 +196,7 @@ pub fn analyse_formulae(
     print_if_allowed(
         format!(
             "Total computation time: {}ms",
-            start.elapsed().unwrap().as_millis()
+            start.elapsed().unwrap_or_default().as_millis()
         ),
         print_opt,
     );
